@@ -71,6 +71,26 @@ def _model_error_elsewhere(o) -> Optional[str]:
     if not isinstance(n, ast.Raise) or n.exc is None:
         return None
     f = fn_of(o.fi)
+    # a hook with the wrong signature: TypeError from the bare hook call, converted (the sibling of the exemption by name for
+    # _yatiml_recognize) - the protected statements are the hook call and nothing else
+    h = next((a for a in S._ancestors_list(n) if isinstance(a, ast.ExceptHandler)), None)
+    if h is not None and S.raise_class(n) == 'RuntimeError' and (f.cfg._handler_names(h) or []) == ['TypeError'] and n.cause is not None:
+        t = next((a for a in S._ancestors_list(h) if isinstance(a, ast.Try) and h in a.handlers), None)
+        if t is not None and len(t.body) == 1 and isinstance(t.body[0], (ast.Expr, ast.Assign)) and isinstance(t.body[0].value, ast.Call) \
+                and isinstance(t.body[0].value.func, ast.Attribute) and t.body[0].value.func.attr.startswith('_yatiml_'):
+            return 'programming error: %s has the wrong signature (TypeError from the bare hook call, converted)' % t.body[0].value.func.attr
+    # a hook that breaks its contract: the wrapper it was given no longer holds a node
+    gs0 = [(x.ast, x.pol) for x in f.cfg.guard_nodes(f.nid(n)) if not S._other_branch_raises(x.ast, x.pol)]
+    def class_only(g_):
+        names = {x.id for x in ast.walk(g_) if isinstance(x, ast.Name)}
+        return bool(names) and all(o.fi.param_annotation(v) is not None and norm(o.fi.param_annotation(v)).startswith('Type') for v in names)
+    contract = [g_ for g_ in gs0 if '.yaml_node' in norm(g_[0])]
+    if S.raise_class(n) == 'RuntimeError' and len(contract) == 1 and all(class_only(g_[0]) for g_ in gs0 if g_ is not contract[0]):
+        t0, p0 = G.canon_atom(*contract[0])
+        w = t0[len('isinstance('):].split('.yaml_node')[0] if t0.startswith('isinstance(') and t0.endswith('.yaml_node, yaml.Node)') else None
+        if w is not None and not p0 and any(isinstance(c_, ast.Call) and isinstance(c_.func, ast.Attribute) and c_.func.attr.startswith('_yatiml_')
+                                            and any(norm(a_) == w for a_ in c_.args) for c_ in f.walk()):
+            return 'user code broke its contract: after the hook, %s.yaml_node is not a node' % w
     # guards that only say "an earlier check did not raise" do not make the error depend on anything new
     gs = [(x.ast, x.pol) for x in f.cfg.guard_nodes(f.nid(n)) if not S._other_branch_raises(x.ast, x.pol)]
     if len(gs) != 1:
@@ -95,9 +115,9 @@ def r08_1_explicit(ctx):
     for root in LOAD_ROOTS:
         for (c, fkey, line), o in sorted(E.esc[P.func(root).key].items()):
             k = '%s:raise %s' % (fkey, c)
-            if (k, root) in seen:
+            if (k, root, line) in seen:
                 continue
-            seen.add((k, root))
+            seen.add((k, root, line))       # every site is judged (two raises of one class in one function are two origins)
             if allowed_class(E, c):
                 r.ok('%s may raise %s (from %s)' % (root.split(':')[1], c, fkey.split(':')[1]))
             elif k in MODEL_ERRORS:
